@@ -462,6 +462,12 @@ func (m *Manager) TerminateSession(ctx context.Context, sessionID string, reason
 		return fmt.Errorf("session not found: %s", sessionID)
 	}
 
+	if session.State == StateTerminating {
+		// another TerminateSession call already claimed this session and is releasing its resources
+		m.mu.Unlock()
+		return fmt.Errorf("session already terminating: %s", sessionID)
+	}
+
 	oldState := session.State
 	session.State = StateTerminating
 	session.StateReason = string(reason)
